@@ -288,6 +288,7 @@ func init() {
 			{"regex-repl-literal", "run-time strings never become an expanding regexp replacement ($-interpretation)", ruleRegexReplLiteral},
 			{"nested-untainted", "nested loop expansion happens before the item's scalar fields are substituted (data-flow)", ruleNestedUntainted},
 			{"token-agreement", "block openers are recognised by the compiled pattern only (no second hand-written recogniser)", ruleTokenAgreement},
+			{"scope-precedence", "a scope map filled from a loop item and from the outer variables lets the item's fields win", ruleScopePrecedence},
 			{"cross-call-state", "the engine keeps no render results between calls except its guarded template cache", ruleCrossCallStateEngine},
 		},
 		Assumptions: append([]string{"RE2 leftmost-first semantics as documented by package regexp"}, commonAssumptions...),
@@ -320,6 +321,7 @@ func init() {
 			{"prefix-append", "no append of new elements to a prefix of a slice whose tail is still needed", rulePrefixAppend},
 			{"split-aware", "tests for template syntax on the document-template path are made on joined text, never on a single run's text", ruleSplitAware},
 			{"runs-kept", "helpers that map a run list to a run list keep every run (collects-all analysis)", ruleRunsKept},
+			{"scope-precedence", "a scope map filled from a loop item and from the outer variables lets the item's fields win", ruleScopePrecedence},
 		},
 		Assumptions: commonAssumptions,
 	}
@@ -338,6 +340,7 @@ func init() {
 			{"softbreak-space", "a true SoftLineBreak() always leads to the emission of a space (must-pass-through)", ruleSoftBreakSpace},
 			{"fixpoint-progress", "rewrite-until-no-match loops make progress: the replacement callback never returns its argument unchanged on a feasible path", ruleFixpointProgress},
 			{"source-agree", "the renderer reads node text from the very buffer that was parsed (same SSA value)", ruleSourceAgree},
+			{"parse-context-fresh", "a parser.Context handed to goldmark's Parse is created for that call (link reference definitions do not survive into the next conversion)", ruleParseContextFresh},
 			{"segment-value", "segment text is read through Segment.Value (padding of indented code kept), never cut out of the source by raw offsets", ruleSegmentValue},
 		},
 		Assumptions: append([]string{"goldmark v1.7.8 node set; classification table in the checker (one reason per kind)"}, commonAssumptions...),
